@@ -362,7 +362,7 @@ def run_with_leaf(prog, fn_key, leaf, ctx=None, overrides=None, setup=None):
 # --------------------------------------------------------------------------- structural analyses
 
 def transparent(p):
-    return p.kind in ("map", "try_map", "context", "take", "value", "void", "verify", "cut_err")
+    return p.kind in ("map", "try_map", "context", "take", "value", "void", "verify", "verify_map", "cut_err")
 
 
 def strip(p):
